@@ -348,6 +348,10 @@ pub fn execute(dir: &str, history: &[Event], lazy_drain: bool, prefix: &[usize])
 }
 
 fn marker_of(text: &str) -> Option<String> {
+    // a text that does not parse is not judged (the server keeps the last good AST by design)
+    if text.contains("def broken(:") {
+        return None;
+    }
     // every version's text declares `def marker_<doc>_v<k>()`
     let i = text.find("def marker_")?;
     let rest = &text[i + 4..];
